@@ -6,6 +6,8 @@ import (
 	"fmt"
 	"net/http"
 	"os"
+	"regexp"
+	"strconv"
 	"strings"
 	"testing"
 	"time"
@@ -89,8 +91,12 @@ func runUnit(u Unit) (handled string, pan any) {
 		_ = p.String()
 		var q phc.PHC
 		q.Scan(u.Input)
-		if strings.Contains(u.Input, "m=8,") || strings.Contains(u.Input, "m=16,") {
-			p.VerifyArgon2id("password") // cheap parameters only: the harness must not be OOM-killed
+		// Verify only with cheap parameters, taken from the parsed value's own canonical form: a stored hash
+		// asking for a million passes is slow by design (no panic), and would only stall the harness
+		if m := phcParams.FindStringSubmatch(p.String()); m != nil && len(m[1]) <= 2 && len(m[2]) == 1 && m[2] <= "4" && len(m[4]) <= 2 && len(p.String()) < 300 {
+			if mem, _ := strconv.Atoi(m[1]); mem <= 64 {
+				p.VerifyArgon2id("password")
+			}
 		}
 		return "accepted", nil
 	case "cert-host":
@@ -158,6 +164,8 @@ func drawHeaderLines(t *rapid.T) string {
 	}
 	return b.String()
 }
+
+var phcParams = regexp.MustCompile(`\$m=(\d+),t=(\d+),p=(\d+),l=(\d+)\$`)
 
 var phcParts = [][]string{
 	{"argon2id", "argon2i", "", "bcrypt"},
@@ -234,9 +242,6 @@ func FuzzParsers(f *testing.F) {
 		case "request-headers", "response-headers", "size", "size-json", "duration-json", "phc":
 		default:
 			target = []string{"request-headers", "response-headers", "size", "size-json", "duration-json", "phc"}[len(target)%6]
-		}
-		if target == "phc" && !(strings.Contains(input, "m=8,") || strings.Contains(input, "m=16,")) && strings.Contains(input, "m=") {
-			// keep memory parameters tiny: Verify is only run for m=8 / m=16 anyway
 		}
 		if size < 0 {
 			size = 0
